@@ -216,6 +216,18 @@ fn cmd_gen_front(args: &[String]) {
                 })
                 .collect();
         }
+        "large" => {
+            let mut rng = rng_for(0);
+            let scen = front::large_scenarios(&mut rng, thorough);
+            evs = scen
+                .par_iter()
+                .enumerate()
+                .map(|(i, (what, list, cfg))| {
+                    builds.fetch_add(1, std::sync::atomic::Ordering::Relaxed);
+                    front::run_large(i + 1, what, list, cfg, &self_exe, &tmp, if thorough { 240 } else { 90 })
+                })
+                .collect();
+        }
         "escsweep" => {
             let block = 2048;
             let nblocks = (gen::N_SCALARS + block - 1) / block;
